@@ -54,12 +54,36 @@ STRENGTHENED = """Checks strengthened because a seeded change was missed (genera
   Select.rsp (`answer_select` with `then_data`).
 * **C03** `C03-default-catalogue-list-shared` - task `isolation`: `StreamsFunctions.update` in one container must not change what
   another default container, or the shipped catalogue list, finds under the same S/F numbers.
+* **C04** `C04-bytequeue-pop-whole-buffer-unlocked-check` - schedules with parked line-level preemptions inside the receive buffer
+  (`ByteQueue`) and the framing loop, and the `chunk-race` family: one segment whose frame boundaries coincide with the 1024-byte
+  `recv` chunks, so that the next chunk is appended while a frame that is exactly the whole buffer is being taken out.
+* **C03**, **C19** `C03-cached-sfdl-tokenizer-shared-cursor`, `C19-cached-tokenizer-shared-cursor` - task `pair`: two simulated
+  threads use the same definition / the same function at the same time under generated line-level preemptions in the structure
+  reader (`vf/conc.py`); each must get what a single thread gets.
+* **C06** `C06-connected-handler-parses-buffer-inline` - family `eager-reconnect`: at a reconnect the peer's first primaries travel
+  directly behind its Select.req and sit in the receive buffer while the endpoint still handles the new connection.
+* **C06** `C06-response-queue-pooling` - reply action `edge` (the reply leaves the peer at the very instant the caller's T3 expires,
+  sent by a thread inside the simulation) and the `t3-edge` family: whatever that race leaves behind must not reach a later caller.
+* **C10** `C10-linger-zero-abortive-close` - the application closes the connection right after its sends were reported successful
+  while the peer has not read them; the simulated sockets model `SO_LINGER` with zero timeout (RST, undelivered bytes discarded).
+* **C09** `C09-listen-socket-reuseaddr-set-after-bind` - the simulated sockets model `TIME_WAIT` after an active close: re-binding
+  the listening port fails with EADDRINUSE unless `SO_REUSEADDR` was set before `bind` (the existing disable / re-enable follow-up
+  then reports `reconnect-refused`).
+* **C09** `C09-receiver-loop-stop-check-before-trigger-clear` - was found by the closerace task at once, but as a harness error
+  (the scripted peer's Select.rsp hit a connection that the wedged endpoint had reset): a new connection that the endpoint drops
+  is now the failure `reselect-failed`.
+@@AGENTS@@
 
 One produced change was discarded instead of kept (`C20-second-link-resets-enabled`: linking a further report to an enabled
 collection event builds a fresh link object, which is disabled until the next S2F37): SEMI E5 itself says that linked event
 reports default to disabled upon linking, C12 deliberately mirrors the implementation on this point (section 4, C12), and the
 host API re-enables the event in the same call - the statement of C20 does not pin the flag in that window, so a check that
 reported it would over-reach.
+
+A second one was discarded in the ninth round (`C18-source-check-accepts-ancestor-states`: a transition whose listed source is
+a composite state is accepted while one of its children is current): whether that is "allowed" is exactly the question the
+statement leaves open (C18, correction 1: generated source sets are closed downward so that it never arises), and UML would side
+with the change - a check that reported it would over-reach.
 
 Sibling catches (a change to one property's anchored code seen by another check as well): `C20-report-values-shared-across-reports`
 by C12; `C05-source-check-outside-lock` by C18; the reversal of fix d663f2e by C05 and C09.
